@@ -142,3 +142,12 @@ PROPS['C01'] = dict(
     rule='eng_c01: each scenario (shipped Denver street-graph scenarios with fleets and region price tables; generated scenarios with vehicles in two fleets, tied plug types, equidistant stations, human drivers) run in fresh processes under several PYTHONHASHSEEDs; evaluations = runs; non-trivial = scenario produced more than 20 events',
     trusted_base=['tools/py2v/inventory.py (syntactic scan: receivers are recognised by field / variable name)', 'the reconciliation of each site with its class in Model/IterOrder.v is by reading'],
 )
+
+import eng_c16
+PROPS['C16'] = dict(
+    props_file='Props/C16.v', kernels=[],
+    engines=[eng_c16.engine], extended=[eng_c16.engine], replayers=[eng_c16.replayer],
+    rule='eng_c16: seeded histories (generic, contention, raw add/modify/remove mixed with steps) on real HIVE objects; every produced SimulationState is retained and deep-fingerprinted at creation and again after all later operations; a quarter of the operations are replayed on the saved earlier state',
+    trusted_base=['CPython enforces the immutability of NamedTuple, frozen dataclass, immutables.Map, frozenset and tuple', 'tools/py2v/inventory.py (syntactic mutation-site scan)'],
+    assumptions=['PARTIAL by nature: the Gallina model cannot express in-place mutation; see Props/C16.v'],
+)
